@@ -78,6 +78,13 @@ def enumHourTaboo (out : IO.FS.Stream) : IO Unit := do
       buf := buf ++ s!"{dp} {hp} : {showL (hourTaboos rawHourTaboo tabooCount dp hp 0)} | {showL (hourTaboos rawHourTaboo tabooCount dp hp 1)}\n"
     out.putStr buf
 
+def enumMixed (out : IO.FS.Stream) : IO Unit := do
+  for a in [0:60] do
+    let mut buf := ""
+    for b in [0:60] do
+      buf := buf ++ s!"{a} {b} : {showL (dayGods rawDayGods godCount a b)} | {showL (dayTaboos rawDayTaboo tabooCount a b 0)} | {showL (dayTaboos rawDayTaboo tabooCount a b 1)} | {showL (hourTaboos rawHourTaboo tabooCount b a 0)} | {showL (hourTaboos rawHourTaboo tabooCount b a 1)}\n"
+    out.putStr buf
+
 def enumLuck (out : IO.FS.Stream) : IO Unit := do
   for i in [0:151] do
     let k := indexOf (i : Int) godCount
@@ -179,6 +186,7 @@ def runEnum (name : String) (_args : List String) (out : IO.FS.Stream) : Option 
   | "c18.daytaboo" => some (enumDayTaboo out)
   | "c18.hourtaboo" => some (enumHourTaboo out)
   | "c18.luck" => some (enumLuck out)
+  | "c18.mixed" => some (enumMixed out)
   | "c18.names" => some (enumNames out)
   | "c18.kitchen" => some (enumKitchen out)
   | "c18.wf" => some (enumWf false out)
